@@ -44,7 +44,7 @@ def model_check(ctx, cases):
     """Evaluates the Coq models on the cases; reports every disagreement as a correspondence failure."""
     jobs = []
     for kind, size in (("expr", EXPR_SHARD), ("sched", 1000), ("seq", SEQ_SHARD)):
-        cs = [c for c in cases if c["kind"] == kind]
+        cs = [c for c in cases if c["kind"] == kind and not c.get("hung") and not c.get("skipped")]
         for i in range(0, len(cs), size):
             jobs.append((kind, cs[i:i + size]))
     with ThreadPoolExecutor(max_workers=14) as ex:
@@ -134,8 +134,34 @@ def shrink_seq(tool, ctx, c, target):
     return cur
 
 
+def shrink_hung(tool, ctx, c, v):
+    """A hung daemon costs the watchdog's deadline per candidate: only a handful of targeted candidates are tried -
+    (daemon start, the last edit the watcher did not answer, the tick that hung), then with fewer files."""
+    ops = c["ops"]
+    t = v["op"]
+    edits = [j for j in range(t) if ops[j]["op"] in ("write", "rename", "remove") and not ops[j].get("synced", True)]
+    edits = edits or [j for j in range(t) if ops[j]["op"] in ("write", "rename", "remove")]
+    if not edits:
+        return c
+    base = dict(c)
+    base["ops"] = [{"op": "restart"}, strip_obs(ops[edits[-1]]), strip_obs(ops[t])]
+    cands = [base]
+    files = c.get("files") or []
+    for i in range(len(files)):
+        d = dict(base)
+        d["files"] = files[:i] + files[i + 1:]
+        cands.append(d)
+    if len(files) > 1:
+        for i in range(len(files)):
+            d = dict(base)
+            d["files"] = [files[i]]
+            cands.append(d)
+    res = [x for x in reeval(tool, ctx, cands[:8]) if any(y["cls"] == v["cls"] for y in L.monitor_seq(x))]
+    return min(res, key=seq_size) if res else c
+
+
 def strip_obs(o):
-    return {k: v for k, v in o.items() if k not in ("calls", "alive", "synced", "ticks")}
+    return {k: v for k, v in o.items() if k not in ("calls", "alive", "synced", "ticks", "late", "hung", "skipped")}
 
 
 def reeval(tool, ctx, cases):
@@ -144,7 +170,7 @@ def reeval(tool, ctx, cases):
         for c in cases:
             f.write(json.dumps(c) + "\n")
     p = os.path.join(ctx.scratch, "re-out.jsonl")
-    rc, out, dt = vlib.run_tool(tool, [p, "replay", p_in], timeout=600)
+    rc, out, dt = vlib.run_tool(tool, [p, "replay", p_in], timeout=900)
     return vlib.read_jsonl(p) if rc == 0 else []
 
 
@@ -169,7 +195,11 @@ def run_monitors(ctx, tool, cases, stats, do_shrink=True):
             if c["verdict"] == 2:
                 ctx.fail("monitor", "the loader panics on a schedule value: %s" % c.get("err", ""), c,
                          cls={"class": "loader-panic", "cause": "unexplained"})
+        elif c["kind"] == "seq" and c.get("skipped"):
+            stats["histories_skipped_after_hangs"] = stats.get("histories_skipped_after_hangs", 0) + 1
         elif c["kind"] == "seq":
+            if c.get("hung"):
+                stats["histories_hung"] = stats.get("histories_hung", 0) + 1
             unsynced = [i for i, o in enumerate(c["ops"]) if not o.get("synced", True)]
             if unsynced:
                 stats["unsynced_ops"] = stats.get("unsynced_ops", 0) + len(unsynced)
@@ -181,7 +211,7 @@ def run_monitors(ctx, tool, cases, stats, do_shrink=True):
                 case = {"case": c, "op": v["op"], "file": v["file"]}
                 if ctx.match_known(v["cls"], "monitor") is None and do_shrink and key not in shrunk and tool is not None:
                     shrunk[key] = True
-                    small = shrink_seq(tool, ctx, c, v["cls"])
+                    small = shrink_hung(tool, ctx, c, v) if v["cls"].get("class") == "hung" else shrink_seq(tool, ctx, c, v["cls"])
                     vv = [x for x in L.monitor_seq(small) if x["cls"] == v["cls"]]
                     if vv:
                         case = {"case": small, "op": vv[0]["op"], "file": vv[0]["file"], "shrunk_from": c["k"]}
@@ -238,6 +268,9 @@ def coverage(ctx, cases, stats):
                          "own_loop_real_clock_runs": sum(1 for c in sq for o in c["ops"] if o["op"] == "loop" and o.get("real")),
                          "watcher_process_crashes": sum(1 for c in sq if c.get("crashed", -1) >= 0),
                          "unsynced_ops": stats.get("unsynced_ops", 0),
+                         "histories_hung": stats.get("histories_hung", 0),
+                         "histories_skipped_after_hangs": stats.get("histories_skipped_after_hangs", 0),
+                         "ticks_with_a_blocked_start": sum(1 for c in sq for o in c["ops"] if o.get("block")),
                          "monitor_classes": stats.get("monitor_classes", {})}
     for c in ex[60:62]:
         ctx.sample({"expr": c.get("expr", ""), "verdict": c["verdict"], "obs": (c.get("obs") or [])[:3]})
@@ -390,9 +423,12 @@ def run(ctx, replay_cases=None):
             cases += reeval(tool, ctx, corpus)
             stats["corpus_cases"] = len(corpus)
         p = os.path.join(ctx.scratch, "cron.jsonl")
-        rc, out, dt = vlib.run_tool(tool, [p, ctx.tier], env_extra={"VERIF_SEED": str(ctx.seed)}, timeout=3000)
+        # hard limit: the driver has its own watchdogs (a hung daemon costs seconds, not the run); this is the backstop
+        limit = 600 if ctx.tier == "quick" else 3000
+        rc, out, dt = vlib.run_tool(tool, [p, ctx.tier], env_extra={"VERIF_SEED": str(ctx.seed)}, timeout=limit)
         if rc != 0:
-            ctx.fail("correspondence", "cron driver failed", {"log": out[-2000:]})
+            ctx.fail("correspondence", "cron driver failed" if rc != 124 else
+                     "cron driver did not finish within %d s and was killed (something in the daemon hangs)" % limit, {"log": out[-2000:]})
             return ctx.finish()
         ctx.cov["driver_seconds"] = round(dt, 1)
         cases += [c for c in vlib.read_jsonl(p) if c["kind"] != "meta"]
